@@ -5,8 +5,9 @@ CONFIG = dict(
                "prefix encoder): for EVERY input of the daemon's domain the reference checker - structural readers written "
                "from RFC 7854 / RFC 6396 / RFC 8050 / RFC 4271 - accepts the model's output (master theorem), i.e. common-header "
                "length = bytes that follow, V flag / AFI <=> width and content of the address fields, embedded PDU(s) complete "
-               "BGP frames that the repository's decoder reads back as the monitored content (single-frame case; the "
-               "multi-frame statement is kept as a Prop and refuted by a witness = finding S29), PEER_INDEX_TABLE count = "
+               "BGP frames - one per Route Monitoring / BGP4MP record, also when the UPDATE had to be split (full-strength "
+               "round-trip theorems since the S29 repair) - that the repository's decoder reads back as the monitored "
+               "content, PEER_INDEX_TABLE count = "
                "entries, RIB entry count / attribute-length fields exactly cover well-formed TLVs, peer indexes in range. "
                "Daemon level: the converters of daemon/src/bmp.rs / mrt.rs (adj_rib_in/out_to_bmp_update, loc_rib_to_bmp, "
                "adj_rib_in_to_mrt, session_down_to_bmp, apply_snapshot+flush_peer_snapshot, dump_table) are modelled as event -> "
@@ -30,16 +31,18 @@ CONFIG = dict(
     theorems=[
         "Rbgp.Mon2.Props.check_run_ok",
         "Rbgp.Mon2.Props.run_no_panic",
+        "Rbgp.Mon2.Props.bmp_msg_len_exact",
         "Rbgp.Mon2.Props.bmp_len_exact",
         "Rbgp.Mon2.Props.bmp_vflag_iff_v6",
-        "Rbgp.Mon2.Props.bmp_embedded_roundtrip_partial",
-        "Rbgp.Mon2.Props.bmp_embedded_roundtrip_full_false",
+        "Rbgp.Mon2.Props.bmp_embedded_roundtrip_full",
+        "Rbgp.Mon2.Props.bmp_embedded_roundtrip_single",
         "Rbgp.Mon2.Props.bmp_peer_up_ok",
         "Rbgp.Mon2.Props.bmp_peer_down_ok",
+        "Rbgp.Mon2.Props.mrt_record_len_exact",
         "Rbgp.Mon2.Props.mrt_len_exact",
         "Rbgp.Mon2.Props.mrt_afi_matches_addrs",
-        "Rbgp.Mon2.Props.mrt_embedded_roundtrip_partial",
-        "Rbgp.Mon2.Props.mrt_embedded_roundtrip_full_false",
+        "Rbgp.Mon2.Props.mrt_embedded_roundtrip",
+        "Rbgp.Mon2.Props.mrt_embedded_roundtrip_full",
         "Rbgp.Mon2.Props.tabledump_counts_consistent",
         "Rbgp.Mon2.Props.peer_index_count",
         "Rbgp.Mon2.Props.rib_entry_attr_length",
